@@ -59,3 +59,10 @@ def gen_layout_guards(g):
     guards = [n for n in ast.walk(fl) if isinstance(n, ast.If) and "processing.keep_syntax_tree(source, candidate)" in ast.unparse(n.test) and isinstance(n.body[0], ast.Continue)]
     ok = len(ys) == 1 and len(guards) == 1 and guards[0].lineno < ys[0].lineno
     g.oblige_text("dataflow", "fix_line_lengths:a-wrapped-statement-is-yielded-only-if-the-tree-is-kept", bool(ok), fl.lineno)
+    # every return of fix_import_spacing is the input or goes through the guard with the input as reference
+    fi, _ = find_def("fixes", "fix_import_spacing")
+    rets = [n for n in ast.walk(fi) if isinstance(n, ast.Return)]
+    ok = bool(rets) and all(r.value is not None and (ast.unparse(r.value) == "source" or (isinstance(r.value, ast.Call) and ast.unparse(r.value.func) == "processing.keep_syntax_tree"
+                                                                                           and len(r.value.args) == 2 and ast.unparse(r.value.args[0]) == "source")) for r in rets)
+    reassigned = any(isinstance(n, ast.Name) and n.id == "source" and isinstance(n.ctx, ast.Store) for n in ast.walk(fi))
+    g.oblige_text("dataflow", "fix_import_spacing:every-result-goes-through-the-tree-guard", bool(ok and not reassigned), fi.lineno)
